@@ -366,22 +366,17 @@ def _flat(a):
         yield a
 
 
-def _grid_compare(case, impl, model):
-    """returns (ok, used_ulp_rule)"""
-    x64 = case.get("x64", True)
-    a, b = list(_flat(impl)), list(_flat(model))
-    if len(a) != len(b):
-        return False, False
-    bounds = [case["tmin"], case["tmax"]] if case["kind"] == "ode" else list(case["mins"]) + list(case["maxs"])
+def _grid_compare(impl, model, bounds, x64):
+    """impl/model: flat lists of exact rationals (strings); bounds: the (lo, hi) the values were built from.
+    Equal, or within 4 ulp at the scale of the larger bound.  Returns ok."""
+    if len(impl) != len(model):
+        return False
     tol = 4 * _ulp(max(abs(v) for v in bounds), x64)
-    used = False
-    for u, v in zip(a, b):
+    for u, v in zip(impl, model):
         fu, fv = Fraction(u), Fraction(v)
-        if fu != fv:
-            used = True
-            if abs(fu - fv) > tol:
-                return False, used
-    return True, used
+        if fu != fv and abs(fu - fv) > tol:
+            return False
+    return True
 
 
 def judge(case, obs, a):
@@ -414,15 +409,19 @@ def judge(case, obs, a):
         return {"status": "disagree", "clause": "model-trace-differs"}
     if case["method"] == "grid" and obs["stores"] is not None and a["model_store"] is not None:
         ms = a["model_store"]
-        pairs = []
+        x64 = case.get("x64", True)
+        ok = True
         if case["kind"] in ("ode", "nonstatio"):
-            pairs.append((obs["stores"]["times"], ms["times"]))
+            ok = ok and _grid_compare(list(_flat(obs["stores"]["times"])), list(_flat(ms["times"])),
+                                      (case["tmin"], case["tmax"]), x64)
         if case["kind"] != "ode":
-            pairs.append((obs["stores"]["omega"], ms["omega"]))
-        for impl, model in pairs:
-            ok, _ = _grid_compare(case, impl, model)
-            if not ok:
-                return {"status": "disagree", "clause": "grid-store-differs-from-min+k(max-min)/n"}
+            io, mo = obs["stores"]["omega"], ms["omega"]
+            ok = ok and len(io) == len(mo)
+            for c in range(case["dim"]):      # axis by axis, each at the scale of its own bounds
+                ok = ok and _grid_compare([r[c] for r in io], [r[c] for r in mo],
+                                          (case["mins"][c], case["maxs"][c]), x64)
+        if not ok:
+            return {"status": "disagree", "clause": "grid-store-differs-from-min+k(max-min)/n"}
     return {"status": "ok", "clause": None}
 
 
